@@ -199,8 +199,9 @@ Print Assumptions C07_source_paths.
    window read and the h2 send + transport write; (b) every h2.send_data is written to the transport at
    once (so no DATA frame of a sender is queued in h2 when resume_writing flushes); (c) the only waits
    are on write_ready at the top of an iteration and on the stream's own window_updated right after
-   clear(), and a wait for credit is followed by another trip round the loop (re-check); (d) the branch
-   is on window > 0 exactly; and all three kinds of path exist *)
+   clear(), and every back edge (of whichever loop) leads to awaiting write_ready and reading the window
+   afresh (re-check); (d) the branch is on window > 0 exactly and the chunk is bounded by the window and
+   the max frame size read since the last suspension point; and all three kinds of path exist *)
 Theorem C07_source_send_data_facts :
   forallb no_await_after_window_read paths_send_data = true /\
   forallb send_written_at_once paths_send_data = true /\
